@@ -15,7 +15,7 @@ import (
 
 type c06Stats struct {
 	children, killed, drvPoints, vfsPoints, torn, secondCrash, inCommit, realRestarts int
-	faults int64
+	faults                                                                            int64
 }
 
 // c06Recovery checks the store after a kill, against the parent's view (built
